@@ -47,6 +47,13 @@ def make_source(rng):
     rl = gen.labels(rng, int(rg_idx.max()) + 1, lk)
     pl = gen.labels(rng, int(pg_idx.max()) + 1, lk)
     cont = gen.pick(rng, gen.CONTAINERS)
+    if rng.integers(4) == 0:
+        # condition (and RDM) numbers stored as strictly increasing numpy arrays, one group per item -- the most
+        # ordinary descriptor there is, and the one helper code is tempted to pass through without a copy
+        rgk, pgk, lk, cont = 'singleton', 'singleton', 'int', 'ndarray'
+        rg_idx, pg_idx = np.arange(n_rdm), np.arange(n_cond)
+        rl = sorted(gen.labels(rng, n_rdm, 'int'))
+        pl = sorted(gen.labels(rng, n_cond, 'int'))
     ruid = [int(v) for v in rng.permutation(n_rdm) + 11]
     puid = [int(v) for v in rng.permutation(n_cond) + 21]
     iu = np.triu_indices(n_cond, 1)
